@@ -7,7 +7,7 @@ import Stackage.Driver.Alias
 import Stackage.Driver.Opts
 import Stackage.Driver.Sweep
 import Stackage.Driver.Defrag
--- import Stackage.Driver.Reveal   -- re-enabled once the C20 files handle Val.opv
+import Stackage.Driver.Reveal
 
 /-! Correspondence driver: case lines on stdin, `<id> M <model>` and `<id> S <spec>` lines on stdout. -/
 
@@ -25,6 +25,7 @@ def dispatch (stream payload : String) : String × String × String :=
   else if stream == "opts" then runOpts payload
   else if ["frozen", "inert", "queries"].contains stream then runSweep payload
   else if stream == "nilpat" then runDefrag payload
+  else if stream == "revealtrees" then runReveal payload
   else ("NOSTREAM", "NOSTREAM", "")
 
 partial def loop (h : IO.FS.Stream) (out : IO.FS.Stream) : IO Unit := do
